@@ -47,8 +47,9 @@ Definition mir nS nA m g rmax tol (exp : list (@step Q)) (Qi : list (list Q)) ep
 CLAUSES = ["c_valid", "c_tally", "c_upper", "c_unknown", "c_bellman", "c_policy"]
 GAMMAS = ["1/2", "3/4", "7/8"]
 SLOW_GAMMAS = ["63/64", "127/128", "255/256", "1023/1024"]
-# reuse of one RMAX object on MDPs of different table sizes (off: msdm raises IndexError there, reported)
-REUSE_ANY_SIZE = os.environ.get("C17_REUSE_ANY_SIZE", "0") == "1"
+# reuse of one RMAX object on MDPs of different table sizes (on since /repo 235fcf2 fixed the cached
+# _self_transition_mat; C17_REUSE_ANY_SIZE=0 restricts the second MDP to the same table size)
+REUSE_ANY_SIZE = os.environ.get("C17_REUSE_ANY_SIZE", "1") == "1"
 # explicit _state_list containing unreachable states (off: msdm sizes its tables by reachable_states() but
 # indexes them by state_list.index -> IndexError / Q dict not over state_list; reported, decision pending)
 EXPLICIT_UNREACHABLE = os.environ.get("C17_EXPLICIT_UNREACHABLE", "0") == "1"
@@ -239,9 +240,8 @@ def gen_case(rng, tier):
     if rng.random() < .2:
         # object reuse: the SAME RMAX object is trained on this MDP and then again, either on the very same
         # MDP object or on a second MDP with a different discount rate (and its own rewards / rmax); each
-        # result is judged with its own MDP.  The second MDP has the same table size unless
-        # C17_REUSE_ANY_SIZE=1 (observation: reuse on a different table size raises IndexError from the
-        # cached _self_transition_mat; outside C17's quantifier).
+        # result is judged with its own MDP.  The second MDP may have a different table size (a stale
+        # _self_transition_mat used to raise IndexError there; fixed in /repo by 235fcf2).
         if rng.random() < .25:
             case["then"] = {"same_mdp_object": True}
             return case
@@ -557,9 +557,8 @@ def run(ctx):
                 "resampled until some initial state is non-absorbing.  PRESENTATION (all families, results mapped back by label): action labels ints / renamed ints / strings incl. '' / tuples incl. () / bools, "
                 "actions(s) listing them sorted / in one shuffled order / in a different order per state as tuple / list / frozenset; state labels ints / renamed ints / strings / tuples "
                 "(sorted state_list order differs from the id order); explicit shuffled _state_list/_action_list (25%%) or inferred; integral gamma / rmax passed as int (50%%).  "
-                "REUSE (20%% of MAIN): the same RMAX object is trained again, on the very same MDP object (1/4) or on a second MDP of the same table size with a "
-                "different gamma and its own rewards/rmax (learner.rmax set to it); both trainings are judged, each with its own MDP (reuse across table sizes raises IndexError in msdm; "
-                "outside C17's quantifier, generated only with C17_REUSE_ANY_SIZE=1).  15%% of MAIN also run a second fresh RMAX object with the default listener on the already-used MDP object "
+                "REUSE (20%% of MAIN): the same RMAX object is trained again, on the very same MDP object (1/4) or on a second MDP of any table size with a "
+                "different gamma and its own rewards/rmax (learner.rmax set to it); both trainings are judged, each with its own MDP.  15%% of MAIN also run a second fresh RMAX object with the default listener on the already-used MDP object "
                 "(episode_rewards and Q must equal the recorded run).  SLOW-DECAY (about 8%%): 1-2 state zero-reward "
                 "cycle left with probability 1/8 or 1/16 to an absorbing state (the only positive reward on the exit), gamma in {63/64,127/128,255/256,1023/1024}, m in {1,2}, tolerance 1e-5: "
                 "when the first m samples of all cycle pairs stay in the cycle, value iteration needs thousands of sweeps; for this family ONLY the certificate (valid steps, tallies, upper bound, "
